@@ -408,7 +408,7 @@ impl OutputFormat for IcyDraw {
                                         match font_slot.parse() {
                                             Ok(font_slot) => {
                                                 let mut o: usize = 0;
-                                                let (font_name, size) = read_utf8_encoded_string(&bytes[o..]);
+                                                let (font_name, size) = read_utf8_encoded_string(&bytes[o..])?;
                                                 o += size;
                                                 let font = BitFont::from_bytes(font_name, &bytes[o..])?;
                                                 result.set_font(font_slot, font);
@@ -506,7 +506,7 @@ impl OutputFormat for IcyDraw {
                                     }
                                     let mut o: usize = 0;
 
-                                    let (title, size) = read_utf8_encoded_string(&bytes[o..]);
+                                    let (title, size) = read_utf8_encoded_string(&bytes[o..])?;
                                     let mut layer = Layer::new(title, (0, 0));
 
                                     o += size;
@@ -700,9 +700,15 @@ fn get_invisible_line_length(layer: &Layer, y: i32) -> i32 {
     length
 }
 
-fn read_utf8_encoded_string(data: &[u8]) -> (String, usize) {
+fn read_utf8_encoded_string(data: &[u8]) -> EngineResult<(String, usize)> {
+    if data.len() < 4 {
+        return Err(LoadingError::FileTooShort.into());
+    }
     let size = u32::from_le_bytes(data[0..4].try_into().unwrap()) as usize;
-    (String::from_utf8_lossy(&data[4..(4 + size)]).to_string(), size + 4)
+    if data.len() - 4 < size {
+        return Err(LoadingError::FileTooShort.into());
+    }
+    Ok((String::from_utf8_lossy(&data[4..(4 + size)]).to_string(), size + 4))
 }
 
 fn write_utf8_encoded_string(data: &mut Vec<u8>, s: &str) {
